@@ -63,6 +63,8 @@ static void* zv_cmalloc(void* op, size_t sz) { zv_count* c = (zv_count*)op; u64*
 static void zv_cfree(void* op, void* ptr) { zv_count* c = (zv_count*)op; u64* p; if (!ptr) return; p = (u64*)((char*)ptr - 16);
     if (p[1] != ZV_TAG) { __sync_fetch_and_add(&c->badFree, 1); return; }       /* not one of ours: an interior pointer, a double free, ... */
     p[1] = 0; __sync_fetch_and_sub(&c->live, (size_t)p[0]); __sync_fetch_and_add(&c->nFree, 1); free(p); }
+/* round 3: failure injection (the k-th next allocation fails); defined with do_mtf below */
+static volatile long zv_failAt; static volatile long zv_allocNo; static void* zv_fmalloc(void* op, size_t sz);
 static size_t heap_held(void) { struct mallinfo2 m = mallinfo2(); return m.uordblks + m.hblkhd; }
 
 /* ---- every malloc / calloc of the process while [zv_watch] is set (link flags -Wl,--wrap=malloc,--wrap=calloc) ---- */
@@ -153,15 +155,18 @@ static void make_dict(void) {
  *   per op:  <rc>/<live>/<sizeof>/<tableSize>/<count>   (live = bytes the counting allocator holds for the context) */
 #define ZV_MAXDD 512
 static void do_down(char** a, int n) {
-    zv_count cnt; ZSTD_customMem cm; ZSTD_DCtx* d; int i; ZSTD_DDict* dds[ZV_MAXDD]; int nd = 0; unsigned char* raw = (unsigned char*)malloc(1 << 20);
+    zv_count cnt; ZSTD_customMem cm; ZSTD_DCtx* d; int i; ZSTD_DDict* dds[ZV_MAXDD]; int nd = 0; unsigned char* raw = (unsigned char*)malloc(1 << 20); long pendingFail = 0;
     unsigned char* frame = (unsigned char*)malloc((1 << 17) + 64); unsigned char* outb = (unsigned char*)malloc((1 << 17) + 64);
-    memset(&cnt, 0, sizeof cnt); cm.customAlloc = zv_cmalloc; cm.customFree = zv_cfree; cm.opaque = &cnt;
+    memset(&cnt, 0, sizeof cnt); cm.customAlloc = zv_fmalloc; cm.customFree = zv_cfree; cm.opaque = &cnt;
+    zv_failAt = -1; zv_allocNo = 0;
     gen_data(raw, 1 << 20, 9);
     d = ZSTD_createDCtx_advanced(cm);
     zv_armed = 1;
     if (sigsetjmp(zv_jmp, 1)) { zv_armed = 0; printf("SEGV\n"); goto done; }
     for (i = 2; i < n; i++) {
         char k = a[i][0]; size_t rc = 0;
+        if (k == '!') { pendingFail = (long)hx(a[i] + 1); continue; }     /* round 3: the k-th allocation of the NEXT operation fails (oracle only; the model has no failures) */
+        if (pendingFail) { zv_failAt = zv_allocNo + pendingFail; pendingFail = 0; }
         if (k == 'M') rc = ZSTD_DCtx_setParameter(d, ZSTD_d_refMultipleDDicts, (int)hx(a[i] + 1));
         else if (k == 'R') {
             unsigned char* dc = (unsigned char*)malloc(zv_dictLen); unsigned id = (unsigned)hx(a[i] + 1);
@@ -180,6 +185,7 @@ static void do_down(char** a, int n) {
         else if (k == 'C') { ZSTD_DCtx* tmp = ZSTD_createDCtx();     /* ZSTD_copyDCtx from a fresh context whose multi-DDict flag is set / clear */
             ZSTD_DCtx_setParameter(tmp, ZSTD_d_refMultipleDDicts, (int)hx(a[i] + 1)); ZSTD_copyDCtx(d, tmp); ZSTD_freeDCtx(tmp); rc = 0; }
         else { printf("BADTOKEN "); continue; }
+        zv_failAt = -1;
         printf("%s/%llx/%llx/%llx/%llx ", ecode(rc), (u64)cnt.live, (u64)ZSTD_sizeof_DCtx(d),
                (u64)(d->ddictSet ? d->ddictSet->ddictPtrTableSize : 0), (u64)(d->ddictSet ? d->ddictSet->ddictPtrCount : 0));
     }
@@ -425,15 +431,22 @@ static void do_osz(char** a) {
  *   op: W<n> nbWorkers=n through ZSTD_CCtx_setParametersUsingCCtxParams, ZSTD_compress2 of 2 MiB      S<n> same, ZSTD_compressStream2
  *       D<n> direct ZSTD_CCtx_setParameter(ZSTD_c_nbWorkers, n)                 B ZSTD_CCtx_loadDictionary_byReference + compress2
  *       Y ZSTD_CCtx_loadDictionary (by copy)    P ZSTD_CCtx_refPrefix + compress2    R ZSTD_CCtx_refCDict(external CDict) + compress2
- *       Q ZSTD_generateSequences               N nothing special (plain compress2)   T ZSTD_CCtx_refThreadPool + nbWorkers via params */
+ *       Q ZSTD_generateSequences               N nothing special (plain compress2)   T ZSTD_CCtx_refThreadPool + nbWorkers via params
+ *       round 3: Z ZSTD_compressSequences   L block API   C compressBegin_usingDict / Continue / End   I ZSTD_initCStream_srcSize + compressStream / endStream
+ *                U ZSTD_initCStream_usingDict   H ZSTD_compress_usingCDict_advanced   E a failing sequence producer + fallback   X ZSTD_copyCCtx static <- static */
+static size_t zv_failing_producer(void* st, ZSTD_Sequence* out, size_t cap, const void* src, size_t n, const void* dict, size_t dn, int lvl, size_t wsz) {
+    (void)st; (void)out; (void)cap; (void)src; (void)n; (void)dict; (void)dn; (void)lvl; (void)wsz; return ZSTD_SEQUENCE_PRODUCER_ERROR; }
 static void do_scct(char** a) {
     unsigned placement = (unsigned)hx(a[1]); char op = a[2][0]; int arg = (int)hx(a[2] + 1);
     size_t const est = ZSTD_estimateCStreamSize(3); zv_region r; char* ws; ZSTD_CCtx* c; size_t rc = 0, rc0 = 0;
     size_t const n = (op == 'W' || op == 'S' || op == 'T') ? (2u << 20) : 100000; unsigned char* src = (unsigned char*)malloc(n); size_t const cap = ZSTD_compressBound(n);
     unsigned char* dst = (unsigned char*)malloc(cap); unsigned char* back = (unsigned char*)malloc(n); static unsigned char dict[5000];
     ZSTD_CCtx_params* p = ZSTD_createCCtxParams(); ZSTD_CDict* cd = NULL; ZSTD_Sequence* seqs = NULL; ZSTD_threadPool* tp = NULL; ZSTD_DCtx* d = ZSTD_createDCtx(); int usedDict = 0;
+    ZSTD_Sequence* seqs2 = NULL; size_t nseqs2 = 0; int noFrame = 0;
     gen_data(src, n, 11); memcpy(dict, src + 100, sizeof dict);
-    if (op == 'R') cd = ZSTD_createCDict(dict, sizeof dict, 3);
+    if (op == 'R' || op == 'H') cd = ZSTD_createCDict(dict, sizeof dict, 3);
+    if (op == 'Z') { ZSTD_CCtx* h = ZSTD_createCCtx(); seqs2 = (ZSTD_Sequence*)malloc(ZSTD_sequenceBound(n) * sizeof(ZSTD_Sequence));
+        nseqs2 = ZSTD_generateSequences(h, seqs2, ZSTD_sequenceBound(n), src, n); if (!ZSTD_isError(nseqs2)) nseqs2 = ZSTD_mergeBlockDelimiters(seqs2, nseqs2); ZSTD_freeCCtx(h); }
     if (op == 'Q') seqs = (ZSTD_Sequence*)malloc(ZSTD_sequenceBound(n) * sizeof(ZSTD_Sequence));
     if (op == 'T') tp = ZSTD_createThreadPool(2);
     if (!zv_region_make(&r, est)) { printf("SKIP mmap\n"); goto done0; }
@@ -453,13 +466,38 @@ static void do_scct(char** a) {
     else if (op == 'P') { rc0 = ZSTD_CCtx_refPrefix(c, dict, sizeof dict); usedDict = 1; }
     else if (op == 'R') { rc0 = ZSTD_CCtx_refCDict(c, cd); usedDict = 1; }
     if (op == 'Q') rc = ZSTD_generateSequences(c, seqs, ZSTD_sequenceBound(n), src, n);
+    /* round 3: more entry points on the same static context */
+    else if (op == 'Z') {   /* ZSTD_compressSequences with sequences produced beforehand by a heap context */
+        rc = ZSTD_compressSequences(c, dst, cap, seqs2, nseqs2, src, n); }
+    else if (op == 'L') {   /* block-level API */
+        rc = ZSTD_compressBegin(c, 3); if (!ZSTD_isError(rc)) rc = ZSTD_compressBlock(c, dst, cap, src, 50000); noFrame = 1; }
+    else if (op == 'C') {   /* buffer-less streaming with a raw dictionary */
+        size_t r1; rc = ZSTD_compressBegin_usingDict(c, dict, sizeof dict, 3); usedDict = 1;
+        if (!ZSTD_isError(rc)) { r1 = ZSTD_compressContinue(c, dst, cap, src, n / 2); rc = r1;
+            if (!ZSTD_isError(r1)) { rc = ZSTD_compressEnd(c, dst + r1, cap - r1, src + n / 2, n - n / 2); if (!ZSTD_isError(rc)) rc += r1; } } }
+    else if (op == 'I') {   /* deprecated streaming initialisers */
+        ZSTD_inBuffer in = { src, n, 0 }; ZSTD_outBuffer out = { dst, cap, 0 };
+        rc = ZSTD_initCStream_srcSize(c, 3, n);
+        if (!ZSTD_isError(rc)) rc = ZSTD_compressStream(c, &out, &in);
+        while (!ZSTD_isError(rc)) { rc = ZSTD_endStream(c, &out); if (rc == 0) { rc = out.pos; break; } } }
+    else if (op == 'U') { rc0 = ZSTD_initCStream_usingDict(c, dict, sizeof dict, 3); rc = ZSTD_isError(rc0) ? rc0 : ZSTD_compress2(c, dst, cap, src, n); usedDict = !ZSTD_isError(rc0); }
+    else if (op == 'H') { ZSTD_frameParameters fp = { 1, 1, 0 }; rc = ZSTD_compress_usingCDict_advanced(c, dst, cap, src, n, cd, fp); usedDict = 1; }
+    else if (op == 'E') {   /* a registered sequence producer that always fails, with fallback to the internal parser */
+        ZSTD_registerSequenceProducer(c, NULL, zv_failing_producer); ZSTD_CCtx_setParameter(c, ZSTD_c_enableSeqProducerFallback, 1);
+        rc = ZSTD_compress2(c, dst, cap, src, n); }
+    else if (op == 'X') {   /* ZSTD_copyCCtx static <- static */
+        void* b2 = malloc(est); ZSTD_CCtx* c2 = ZSTD_initStaticCCtx(b2, est); size_t r1;
+        zv_mcalls = 0; zv_mbytes = 0;
+        rc = ZSTD_compressBegin(c2, 3); if (!ZSTD_isError(rc)) rc = ZSTD_copyCCtx(c, c2, n);
+        if (!ZSTD_isError(rc)) rc = ZSTD_compressEnd(c, dst, cap, src, n);
+        (void)r1; zv_watch = 0; free(b2); }
     else if (op == 'S') { ZSTD_inBuffer in = { src, n, 0 }; ZSTD_outBuffer out = { dst, cap, 0 };
         rc = ZSTD_compressStream2(c, &out, &in, ZSTD_e_continue);
         while (!ZSTD_isError(rc)) { rc = ZSTD_compressStream2(c, &out, &in, ZSTD_e_end); if (rc == 0) { rc = out.pos; break; } } }
     else rc = ZSTD_compress2(c, dst, cap, src, n);
     zv_watch = 0;
     printf("set=%s rc=%s mallocs=%llx bytes=%llx sizeof=%llx block=%llx", ecode(rc0), ecode(rc), (u64)zv_mcalls, (u64)zv_mbytes, (u64)ZSTD_sizeof_CCtx(c), (u64)est);
-    if (!ZSTD_isError(rc) && op != 'Q') {
+    if (!ZSTD_isError(rc) && op != 'Q' && !noFrame) {
         size_t const dr = usedDict ? ZSTD_decompress_usingDict(d, back, n, dst, rc, dict, sizeof dict) : ZSTD_decompressDCtx(d, back, n, dst, rc);
         printf(" rt=%s", (!ZSTD_isError(dr) && dr == n && !memcmp(back, src, n)) ? "ok" : "BAD");
     }
@@ -471,7 +509,7 @@ static void do_scct(char** a) {
 done:
     zv_armed = 0; zv_watch = 0; zv_region_free(&r);
 done0:
-    ZSTD_freeCCtxParams(p); ZSTD_freeCDict(cd); ZSTD_freeDCtx(d); if (tp) ZSTD_freeThreadPool(tp); free(seqs); free(src); free(dst); free(back);
+    ZSTD_freeCCtxParams(p); ZSTD_freeCDict(cd); ZSTD_freeDCtx(d); if (tp) ZSTD_freeThreadPool(tp); free(seqs); free(seqs2); free(src); free(dst); free(back);
 }
 
 /* ---------------------------------------------------------------------------------------------------------
@@ -552,7 +590,7 @@ done:
  *        T<0|1|2> ZSTD_CCtx_refThreadPool(NULL | pool A (2 threads) | pool B (3 threads))
  *        C<size> ZSTD_compress2   S<size> ZSTD_compressStream2(continue) offering ONE byte of output (frame left open)
  *        E ZSTD_compressStream2(end) until done   Rs / Rp ZSTD_CCtx_reset(session_only / session_and_parameters)
- *        U<size>/<dictSize> ZSTD_compress_usingDict(level 3)   A<size>/<hashLog> ZSTD_compress_advanced(fast, that hashLog)   (both after ZSTD_CCtx_reset(session_only))
+ *        U<size>/<dictSize> ZSTD_compress_usingDict(level 3)   A<size>/<hashLog> ZSTD_compress_advanced(fast, that hashLog)   (also inside an open streaming frame: abandons it, fix 38ec6ea)
  *        Y<level> ZSTD_CCtx_reset(session_only), ZSTD_copyCCtx(this <- a fresh context of the same allocator after ZSTD_compressBegin(level)), ZSTD_compressEnd(1000 bytes)
  *        X<size> ZSTD_CCtx_setParametersUsingCCtxParams(level 5, nbWorkers 2, LDM) then compress2
  *        !<k> the k-th allocation made by the NEXT operation fails (that operation may answer memory_allocation; the context
@@ -563,7 +601,7 @@ static void do_chis(char** a, int n) {
     size_t const cap = ZSTD_compressBound(maxN); unsigned char* dst = (unsigned char*)malloc(cap); unsigned char* dict = (unsigned char*)malloc(1 << 20);
     ZSTD_threadPool* tp[3] = { NULL, NULL, NULL }; ZSTD_CDict* cds[16]; int ncd = 0; int under = 0;
     long pendingFail = 0;   /* token !<k> : the k-th allocation of the NEXT operation fails */
-    int pollOK = 1;   /* ZSTD_getFrameProgression dereferences the multithreaded context that ZSTD_CCtx_refThreadPool has just dropped (not a C14 matter, reported): do not poll then */
+    int const pollOK = 1;   /* (round 3: ZSTD_getFrameProgression used to crash after ZSTD_CCtx_refThreadPool / ZSTD_copyCCtx; fixed by 6c831c5) */
     memset(&cnt, 0, sizeof cnt); cm.customAlloc = zv_fmalloc; cm.customFree = zv_cfree; cm.opaque = &cnt;
     zv_failAt = -1; zv_allocNo = 0;
     gen_data(src, maxN, 31); gen_data(dict, 1 << 20, 32);
@@ -590,7 +628,6 @@ static void do_chis(char** a, int n) {
         else if (k == 'S') { ZSTD_inBuffer in = { src, v, 0 }; ZSTD_outBuffer out = { dst, 1, 0 }; rc = ZSTD_compressStream2(c, &out, &in, ZSTD_e_continue); }
         else if (k == 'E') { ZSTD_inBuffer in = { src, 0, 0 }; int g = 0; do { ZSTD_outBuffer out = { dst, cap, 0 }; rc = ZSTD_compressStream2(c, &out, &in, ZSTD_e_end); } while (!ZSTD_isError(rc) && rc != 0 && ++g < 1000); }
         else if (k == 'R') rc = ZSTD_CCtx_reset(c, a[i][1] == 'p' ? ZSTD_reset_session_and_parameters : ZSTD_reset_session_only);
-        else if ((k == 'U' || k == 'A') && (ZSTD_CCtx_reset(c, ZSTD_reset_session_only), 0)) { }   /* a one-shot call inside an open streaming frame is a misuse that is not examined here (reported, not C14) */
         else if (k == 'U') rc = ZSTD_compress_usingDict(c, dst, cap, src, v, dict, v2 > (1 << 20) ? (1 << 20) : v2, 3);
         else if (k == 'A') { ZSTD_parameters p; memset(&p, 0, sizeof p); p.cParams = ZSTD_getCParams(1, v, 0); p.cParams.hashLog = (unsigned)v2; p.fParams.contentSizeFlag = 1;
             rc = ZSTD_isError(ZSTD_checkCParams(p.cParams)) ? 0 : ZSTD_compress_advanced(c, dst, cap, src, v, NULL, 0, p); }
@@ -605,9 +642,6 @@ static void do_chis(char** a, int n) {
             if (!ZSTD_isError(rc)) rc = ZSTD_compress2(c, dst, cap, src, v); }
         else { printf("BADTOKEN "); zv_armed = 0; continue; }
         zv_failAt = -1;
-        /* the copy applies the destination's requested nbWorkers without creating a multithreaded context: same inspector crash (reported, not C14) */
-        if ((k == 'T' || k == 'Y') && !ZSTD_isError(rc)) pollOK = 0;
-        if (strchr("CSEUAX", k) && !ZSTD_isError(rc)) pollOK = 1;
         for (spin = 0; pollOK && spin < 4000 && ZSTD_getFrameProgression(c).nbActiveWorkers != 0; spin++) usleep(500);
         usleep(1000);
         so = ZSTD_sizeof_CCtx(c); lv = cnt.live;
